@@ -17,9 +17,11 @@ import (
 	"net/http"
 	"net/http/httptest"
 	"os"
+	"strings"
 	"testing"
 
 	"github.com/Cloud-Foundations/keymaster/lib/instrumentedwriter"
+	"github.com/Cloud-Foundations/keymaster/lib/server/aws_identity_cert"
 )
 
 type c19WorldInfo struct {
@@ -36,6 +38,38 @@ type c19Info struct {
 	Users      map[string]string `json:"users"` // name -> password
 	TOTPSecret string            `json:"totp_secret"`
 	ControlURL string            `json:"control_url"`
+}
+
+// c19FakeSTS stands in for AWS STS (the server validates the caller's
+// presigned GetCallerIdentity URL by fetching it).
+type c19FakeSTS struct{}
+
+func (c19FakeSTS) RoundTrip(req *http.Request) (*http.Response, error) {
+	body := `<GetCallerIdentityResponse xmlns="https://sts.amazonaws.com/doc/2011-06-15/"><GetCallerIdentityResult><Arn>arn:aws:sts::123456789012:assumed-role/VerifRole/i-0123456789abcdef0</Arn><UserId>AROAEXAMPLE:verif</UserId><Account>123456789012</Account></GetCallerIdentityResult></GetCallerIdentityResponse>`
+	return &http.Response{StatusCode: 200, Status: "200 OK", Header: http.Header{"Content-Type": {"text/xml"}},
+		Body: io.NopCloser(strings.NewReader(body)), Request: req}, nil
+}
+
+// c19EnableAwsRoles wires the cloud-role issuer the way config.go does, with
+// the fake STS as its only difference.
+func c19EnableAwsRoles(w *vWorld) {
+	w.state.Config.AwsCerts.AllowedAccounts = []string{"123456789012"}
+	if err := w.state.configureAwsRoles(); err != nil {
+		panic(err)
+	}
+	var err error
+	w.state.awsCertIssuer, err = aws_identity_cert.New(aws_identity_cert.Params{
+		CertificateGenerator: w.state.generateRoleCert,
+		AccountIdValidator:   w.state.checkAwsAccountAllowed,
+		FailureWriter: func(rw http.ResponseWriter, r *http.Request, errorString string, code int) {
+			w.state.writeFailureResponse(rw, r, code, errorString)
+		},
+		HttpClient: &http.Client{Transport: c19FakeSTS{}},
+		Logger:     logger,
+	})
+	if err != nil {
+		panic(err)
+	}
 }
 
 func c19Mux(state *RuntimeState) http.Handler {
@@ -86,6 +120,7 @@ func TestVerifC19Server(t *testing.T) {
 			opts.CertBackends = []string{"SymantecVIP"}
 		}
 		w := vNewWorld(opts)
+		c19EnableAwsRoles(w)
 		worlds = append(worlds, w)
 		switch v.twofa {
 		case "totp":
